@@ -41,8 +41,10 @@ def diff(t, m, order=('exact', 'exact'), tol=False, ignore_type=False, ignore_md
             g, e = d[oi[o]][si[s]], m.m[i][j]
             if not _close(g, e, tol):
                 return 'value(%s,%s)=%r, expected %r' % (o, s, g, e)
-    if not ignore_md:
+    if ignore_md is not True:
         for name, ids, idx, mmd in (('observation', m.o, oi, m.omd), ('sample', m.c, si, m.smd)):
+            if ignore_md and name in ignore_md:
+                continue
             tmd = t.metadata(axis=name)
             if tmd is not None and len(tmd) != len(ids):
                 return '%s metadata has %d entries for %d ids' % (name, len(tmd), len(ids))
